@@ -558,6 +558,33 @@ func (root *Root) isQueryType(t Type) bool {
 	return t.Name() == "Query"
 }
 
+// mergeValues merges the result of resolving a response key again into the
+// previous result for that key. Objects are merged key by key and lists
+// element by element, anything else is replaced by the later value.
+func mergeValues(prev, v interface{}) interface{} {
+	switch tp := prev.(type) {
+	case map[string]interface{}:
+		if tv, ok := v.(map[string]interface{}); ok {
+			for k, m := range tv {
+				if pm, has := tp[k]; has {
+					tp[k] = mergeValues(pm, m)
+				} else {
+					tp[k] = m
+				}
+			}
+			return tp
+		}
+	case []interface{}:
+		if tv, ok := v.([]interface{}); ok && len(tv) == len(tp) {
+			for i, m := range tv {
+				tp[i] = mergeValues(tp[i], m)
+			}
+			return tp
+		}
+	}
+	return v
+}
+
 // copyValue makes a deep copy of the maps and lists of a value.
 func copyValue(v interface{}) interface{} {
 	switch tv := v.(type) {
@@ -676,7 +703,9 @@ func (root *Root) resolveField(
 		ea = root.addError(field, ea, err)
 	}
 	if IsNil(attr) {
-		result[field.key()] = nil
+		if _, has := result[field.key()]; !has {
+			result[field.key()] = nil
+		}
 	} else {
 		var ft Type
 		if fd != nil {
@@ -685,6 +714,11 @@ func (root *Root) resolveField(
 		var fv interface{} // field value
 		fv, ea2 = root.resolve(attr, vars, field, ft, depth)
 		ea = append(ea, ea2...)
+		// The same response key can be selected more than once, directly or
+		// through fragments. The selection sets are merged.
+		if prev, has := result[field.key()]; has {
+			fv = mergeValues(prev, fv)
+		}
 		result[field.key()] = fv
 	}
 	if depth < MaxResolveDepth {
